@@ -55,7 +55,7 @@ func registerSched() {
 			return gen.Generate(profile, seed, idx, tier)
 		}
 	}
-	run.Register(&SchedCheck{Id: "C01", Profile: "tight", Quick: 1000, Thorough: 8000, Gen: sharingShare("tight"),
+	run.Register(&SchedCheck{Id: "C01", PodGroupLag: true, Profile: "tight", Quick: 1000, Thorough: 8000, Gen: sharingShare("tight"),
 		Oracle: func(m *oracle.Model, res *sched.CycleResult, after *spec.Objects, c *spec.Case, st *oracle.Stats) []run.Violation {
 			out := oracle.CheckC01(m, res.Events, res.Cycle, st)
 			// DRA: claimed devices are a node resource too (oracle/dra.go)
@@ -65,13 +65,13 @@ func registerSched() {
 			"About 30% of the cases carry Dynamic Resource Allocation objects (DeviceClass, node-local ResourceSlices with 1-4 devices, ResourceClaims of 1-2 devices, see gen/dra.go); clause claimed-device-conservation: over the store before the cycle and the successful Binds, no device is allocated to two claims, every allocated device belongs to a slice of the selected node, an allocated claim keeps its devices and its pod goes to their node.",
 		Assume: []string{"CSI capacity is not checked", "pod slots of future reservation pods are not charged to the bind that opens a GPU group",
 			"DRA devices are node-local, of one non-GPU device class, requested by exact count; device taints, selectors, shared/consumable capacity and GPU-class claims are not generated"}})
-	run.Register(&SchedCheck{Id: "C02", Profile: "fractions", Quick: 1000, Thorough: 8000, Oracle: cyc(oracle.CheckC02), Gen: sharingShare("fractions"),
+	run.Register(&SchedCheck{Id: "C02", PodGroupLag: true, Profile: "fractions", Quick: 1000, Thorough: 8000, Oracle: cyc(oracle.CheckC02), Gen: sharingShare("fractions"),
 		RuleText: genRule + "Non-trivial: a case that binds a fractional pod into a group that already has a sharer, binds a multi-fraction pod, or binds on a node with <=1 free GPU device.",
 		Assume:   []string{"one accounting unit (1/deviceMemory) of slack per sharer", "device identity of whole-GPU pods is not observable; checked as whole+shared<=count"}})
 	run.Register(&SchedCheck{Id: "C03", Profile: "gangs", Quick: 1000, Thorough: 8000, Oracle: cyc(oracle.CheckC03), SkipFaulty: true, PodGroupLag: true,
 		RuleText: genRule + "Non-trivial: a case in which a gang with total minimum >= 2 received a bind, nomination or eviction. Evaluated only on cases without injected API write failures.",
 		Assume:   []string{"pods whose sub-group label names no leaf sub-group are ignored (the scheduler ignores them too)", "the eviction clause is judged only for gangs that were at or above minimum in every pod set before the cycle"}})
-	run.Register(&SchedCheck{Id: "C04", Profile: "constraints", Quick: 1000, Thorough: 8000, Oracle: cyc(oracle.CheckC04),
+	run.Register(&SchedCheck{Id: "C04", PodGroupLag: true, Profile: "constraints", Quick: 1000, Thorough: 8000, Oracle: cyc(oracle.CheckC04),
 		RuleText: genRule + "Non-trivial: a case with a bind/nomination of a pod whose hard constraints exclude at least one node of the pool, or that carries inter-pod (anti-)affinity terms, or whose group/sub-group has a required topology level.",
 		Assume: []string{"terminating, same-cycle-evicted and merely nominated pods are don't-care for inter-pod terms (either reading accepted)", "only Ready/unschedulable node conditions are demanded",
 			"topology: labels are demanded for the required level and coarser levels only; already active pods pin the domain only if they lie in one domain"}})
@@ -143,7 +143,7 @@ func registerSched() {
 		Assume: []string{"bounded restatement: no lasso within the cycle budget from the generated initial states; says nothing about longer periods",
 			"identical pods of one pod set are interchangeable in the canonical state"}})
 	var c07in *oracle.C07Input
-	run.Register(&SchedCheck{Id: "C07", Profile: "fairness", Quick: 1200, Thorough: 12000,
+	run.Register(&SchedCheck{Id: "C07", PodGroupLag: true, Profile: "fairness", Quick: 1200, Thorough: 12000,
 		Gen: func(seed int64, idx int, tier string) *spec.Case {
 			if idx%3 == 1 { // a third of the cases: department-contention clusters (uneven trees, reclaim in every case)
 				c := gen.Contention(seed, idx, tier)
@@ -177,7 +177,7 @@ func registerSched() {
 		Assume: []string{"a decision is judged only if the harness' allocation model and the scheduler's own per-queue allocation agree at session open for every queue involved (disagreements are C14's business)",
 			"a victim re-nominated in the same decision takes nothing from its queue", "equal saturation ratios are flagged only for cpu/memory or integral GPU allocations (float ties otherwise)",
 			"cycles in which a Bind/Evict call failed are not judged"}})
-	run.Register(&SchedCheck{Id: "C08", Profile: "limits", Quick: 1000, Thorough: 8000, Oracle: cycNoFailedCalls(oracle.CheckC08),
+	run.Register(&SchedCheck{Id: "C08", PodGroupLag: true, Profile: "limits", Quick: 1000, Thorough: 8000, Oracle: cycNoFailedCalls(oracle.CheckC08),
 		RuleText: genRule + "Non-trivial: a case in which a placement ended within one pod request of a finite queue limit or (non-preemptible) of a finite deserved quota.",
 		Assume: []string{"allocation model: requests of bound/binding/running non-terminating pods plus this cycle's binds and nominations minus evictions, rolled up the queue tree; terminating pods are not counted (weaker than the scheduler's own charge, hence sound)",
 			"a queue already above its limit at cycle start is reported only if a decision raises it above the cycle-start value",
@@ -186,7 +186,7 @@ func registerSched() {
 	run.Register(&SchedCheck{Id: "C16", Profile: "order", Quick: 1000, Thorough: 8000, Oracle: cyc(oracle.CheckC16), SkipFaulty: true,
 		RuleText: genRule + "Clones = pod groups created by the generator from one template in one leaf queue (annotation verif/clone-class). Non-trivial: a case in which, among comparable clones (all pods pending, same preemptibility), one was placed by allocate and another was not.",
 		Assume:   []string{"clones carry no inter-pod affinity and no topology constraint"}})
-	run.Register(&SchedCheck{Id: "C14", Profile: "accounting", Quick: 800, Thorough: 6000,
+	run.Register(&SchedCheck{Id: "C14", PodGroupLag: true, Profile: "accounting", Quick: 800, Thorough: 6000,
 		NewMonitor: func() *mon.Monitor { return mon.New(true, false) },
 		NonTrivialFromStats: func(c map[string]int) bool {
 			return c["allocate-event"]+c["deallocate-event"] >= 20 && c["event_status_Releasing"] > 0 && c["event_status_Pipelined"] > 0
@@ -197,7 +197,7 @@ func registerSched() {
 			"GPU-class claims (gen/dra_gpu.go, about 12-15% of the cases): on nodes without device-plugin GPUs a ResourceSlice of a GPU driver adds its devices to the node's GPU capacity, a generated (template) claim of a GPU device class adds its count to the pod's GPU request; the rule 'name contains gpu' is the scheduler's documented one and is restated by the oracle. Oracle dra-gpu-request recomputes every pod's DRA GPU count from its claims (API objects) and compares with PodInfo.ResReq and, for placed pods, AcceptedResource; node GPU capacity is recomputed from node object + slices; on such nodes the gpu field of Idle/Releasing is judged by the linear closed forms and by the rebuild (AddDRAGPUs as the snapshot does); workload and queue accounting charge DRA GPUs like whole GPUs. GPU claims referenced by name (they need a queue label), shared GPU claims and AllocationMode All are not generated",
 			"whole-GPU Idle/Releasing are compared against a node rebuilt with the system's own constructor in snapshot order (reservation pods, non-pipelined, pipelined); skipped when a GPU group holds only pipelined pods (insertion order legitimately matters)",
 			"queue Request is only checked implicitly (it is not updated by events)"}})
-	run.Register(&SchedCheck{Id: "C13", Profile: "accounting", Quick: 800, Thorough: 6000,
+	run.Register(&SchedCheck{Id: "C13", PodGroupLag: true, Profile: "accounting", Quick: 800, Thorough: 6000,
 		NewMonitor: func() *mon.Monitor { return mon.New(false, true) },
 		NonTrivialFromStats: func(c map[string]int) bool {
 			return c["discards_checked"]+c["rollbacks_checked"] >= 2 && c["commits_checked"] >= 1
